@@ -14,7 +14,7 @@ verus! {
 //@enum gneiss-mqtt/src/mqtt/mod.rs UnsubackReasonCode
 //@enum gneiss-mqtt/src/mqtt/mod.rs AuthenticateReasonCode
 //@enum gneiss-mqtt/src/mqtt/mod.rs PacketType
-//@struct gneiss-mqtt/src/mqtt/mod.rs UserProperty
+//@struct gneiss-mqtt/src/mqtt/mod.rs UserProperty clonespec
 //@struct gneiss-mqtt/src/mqtt/mod.rs Subscription
 //@struct gneiss-mqtt/src/mqtt/mod.rs AuthPacket
 //@struct gneiss-mqtt/src/mqtt/mod.rs ConnackPacket
@@ -24,7 +24,7 @@ verus! {
 //@struct gneiss-mqtt/src/mqtt/mod.rs PingrespPacket
 //@struct gneiss-mqtt/src/mqtt/mod.rs PubackPacket defaultspec
 //@struct gneiss-mqtt/src/mqtt/mod.rs PubcompPacket defaultspec
-//@struct gneiss-mqtt/src/mqtt/mod.rs PublishPacket
+//@struct gneiss-mqtt/src/mqtt/mod.rs PublishPacket clonespec
 //@struct gneiss-mqtt/src/mqtt/mod.rs PubrecPacket defaultspec
 //@struct gneiss-mqtt/src/mqtt/mod.rs PubrelPacket defaultspec
 //@struct gneiss-mqtt/src/mqtt/mod.rs SubackPacket
